@@ -297,6 +297,8 @@ func (s *c09Sched) handle(point string, args ...interface{}) {
 		for len(s.transit) < len(s.waiters) {
 			s.transit = append(s.transit, time.Now())
 		}
+	case "js":
+		s.lastWS[thread] = [3]int{args[0].(int), 0, args[1].(int)}
 	case "ws":
 		s.lastWS[thread] = [3]int{args[0].(int), args[1].(int), args[2].(int)}
 	}
